@@ -39,6 +39,10 @@ Next ==
             LET cs == IF e.src THEN src ELSE dec IN
             Step((IF e.cnt # QueryCount(cs, TagBytes(e.t)) THEN {"QueryCountMatches"} ELSE {}), e) /\ UNCHANGED <<src, dec, vendor>>
        [] e.e = "CClear" -> Step({}, e) /\ src' = <<>> /\ dec' = <<>> /\ UNCHANGED vendor
+       [] e.e = "Truncated" ->
+            /\ Step((IF e.ro = 0 /\ e.ri = 0 THEN {"TruncatedHeaderRefused"} ELSE {}) \cup
+                    (IF e.ro = 0 /\ e.ri # 0 /\ (e.nd # 0 \/ e.ven # 0 \/ e.arr # 0) THEN {"RefusedHeaderLeavesNothing"} ELSE {}), e)
+            /\ dec' = <<>> /\ UNCHANGED <<src, vendor>>
        [] e.e = "End" -> Step((IF e.objleft = 0 /\ e.live # 0 THEN {"ClearReleasesEverything"} ELSE {}), e) /\ UNCHANGED <<src, dec, vendor>>
        [] e.e \in {"Crash", "Hang", "Exit"} -> Step({IF e.e = "Crash" THEN "NoCrash" ELSE IF e.e = "Hang" THEN "CallsTerminate" ELSE "LibraryNeverExits"}, e) /\ UNCHANGED <<src, dec, vendor>>
        [] OTHER -> Step({"UnknownEvent"}, e) /\ UNCHANGED <<src, dec, vendor>>
